@@ -1,0 +1,36 @@
+//go:build verif
+
+package internal
+
+import (
+	"context"
+
+	"github.com/oxia-db/oxia/common/rpc"
+	"github.com/oxia-db/oxia/proto"
+)
+
+// VerifExecutor is the real executorImpl (ExecuteWrite -> writeStream -> streamWrapper) over a connection pool and a
+// shard manager supplied by the verification harness. No logic of its own.
+type VerifExecutor struct {
+	e *executorImpl
+}
+
+func NewVerifExecutor(ctx context.Context, namespace string, pool rpc.ClientPool, manager ShardManager) *VerifExecutor {
+	e, _ := NewExecutor(ctx, namespace, pool, manager, "verif").(*executorImpl)
+	return &VerifExecutor{e: e}
+}
+
+func (v *VerifExecutor) ExecuteWrite(ctx context.Context, request *proto.WriteRequest) (*proto.WriteResponse, error) {
+	return v.e.ExecuteWrite(ctx, request)
+}
+
+// WriteStreamState tells whether the executor has a cached write stream for the shard and whether it is marked failed.
+func (v *VerifExecutor) WriteStreamState(shard int64) (cached bool, failed bool) {
+	v.e.RLock()
+	defer v.e.RUnlock()
+	sw, ok := v.e.writeStreams[shard]
+	if !ok {
+		return false, false
+	}
+	return true, sw.failed.Load()
+}
